@@ -430,6 +430,7 @@ impl JSON {
                         key_value_pair = [key_value_pair, char.to_string()].join(SYMBOL.empty_string);
                         let mut number_of_open_square_brackets = 1;
                         let mut number_of_closed_square_brackets = 0;
+                        let mut inside_string = false;
 
                         let mut read_char = true;
                         while read_char {
@@ -453,13 +454,18 @@ impl JSON {
                             }
                             let char = boxed_parse.unwrap().chars().last().unwrap();
 
-                            let is_open_square_bracket = char == '[';
+                            // brackets inside a string value are text, not structure
+                            if char == '"' {
+                                inside_string = !inside_string;
+                            }
+
+                            let is_open_square_bracket = char == '[' && !inside_string;
                             if is_open_square_bracket {
                                 number_of_open_square_brackets = number_of_open_square_brackets + 1;
                             }
 
 
-                            let is_close_square_bracket = char == ']';
+                            let is_close_square_bracket = char == ']' && !inside_string;
                             if is_close_square_bracket {
                                 number_of_closed_square_brackets = number_of_closed_square_brackets + 1;
                             }
@@ -507,6 +513,7 @@ impl JSON {
                         key_value_pair = [key_value_pair, char.to_string()].join(SYMBOL.empty_string);
                         let mut number_of_open_curly_braces = 1;
                         let mut number_of_closed_curly_braces = 0;
+                        let mut inside_string = false;
 
                         let mut read_char = true;
                         while read_char {
@@ -536,13 +543,18 @@ impl JSON {
                             }
                             let char = boxed_last_char.unwrap();
 
-                            let is_open_curly_brace = char == '{';
+                            // braces inside a string value are text, not structure
+                            if char == '"' {
+                                inside_string = !inside_string;
+                            }
+
+                            let is_open_curly_brace = char == '{' && !inside_string;
                             if is_open_curly_brace {
                                 number_of_open_curly_braces = number_of_open_curly_braces + 1;
                             }
 
 
-                            let is_close_curly_brace = char == '}';
+                            let is_close_curly_brace = char == '}' && !inside_string;
                             if is_close_curly_brace {
                                 number_of_closed_curly_braces = number_of_closed_curly_braces + 1;
                             }
